@@ -143,7 +143,7 @@ def cuGet (s : S) (c : Conf) : S × Option (List String) :=
     -- `cache.Get` refreshes recency even when the item turns out to be stale.
     let present := (s.cu c.id).isSome
     let fresh := match s.cu c.id with
-      | some it => !(it.upd < c.upd)
+      | some it => it.upd == c.upd
       | none => false
     if fresh then
       let r := s.cu.step (.get c)
@@ -228,7 +228,7 @@ def step (s : S) : List String → S × String
     (syStep s (.change id (doms.map (fun d => d ++ "#" ++ ver)) (nat! dt)), "ok")
   | ["sy", "sync", full, dt] => (syStep s (.sync (bool! full) (nat! dt)), "ok")
   | ["sy", "fail"] => (s, "ok")
-  | ["sy", "restart"] => ({ (syStep s .restart) with cu := Tbl.empty, cuLru := [] }, "ok")
+  | ["sy", "restart", back] => ({ (syStep s (.restart (nat! back))) with cu := Tbl.empty, cuLru := [] }, "ok")
   | ["sy", "q", id, host] =>
     -- `Sync.step (.query id)` with gcache's LRU order for the custom-filter cache.
     match s.sy.db id with
